@@ -58,7 +58,90 @@ inductive Step where
       `Err` does `reset_stack(level)` + `pop_many(left_over)` — the same error path as `call_thunk_top`.
       (Before /repo dd1aca2 the error was propagated with `?`: nothing reset, see `stepWithOldHost`.) -/
   | hostFail (depth vals : Nat)
+  /-- a top-level evaluation whose failure surfaces through a FUTURE-RETURNING primitive
+      (`primitive!(n, async fn …)`: `lazy.force`, `io.catch`, `io.run_expr`, `io.load_script`, `thread.resume`, …):
+      when the future resolves, the primitive's extern frame is still locked (`into_lock`, function.rs:305) -/
+  | asyncFail (depth vals : Nat)
+  /-- a successful evaluation whose value is an `IO` action run by `execute_io` (thread.rs:1254-1292): the three
+      slots `[0, value, 0]` are pushed, the frame is entered with 2 arguments, on success the frame's values are
+      cleared and the frame exited — the first dummy slot (an `Int 0`) stays on the value stack -/
+  | okIO
   deriving Repr
+
+/-! ### the extern-frame lock (stack.rs `ExternState::locked`, `Lock`, `release_lock`) -/
+
+structure LFrame where
+  offset : Nat
+  locked : Bool
+  deriving Repr, DecidableEq
+
+structure LStack where
+  frames : List LFrame
+  values : Nat
+  deriving Repr, DecidableEq
+
+def Stack.toL (s : Stack) : LStack := ⟨s.frames.map (fun o => ⟨o, false⟩), s.values⟩
+def LStack.toStack (s : LStack) : Stack := ⟨s.frames.map (·.offset), s.values⟩
+
+/-- stack.rs:871-897 `exit_scope`: a locked extern frame is NOT popped (`return Err(self.stack)`). -/
+def exitScopeL (s : LStack) : Option LStack :=
+  match s.frames with
+  | [] => none
+  | f :: rest => if f.locked then none else some { s with frames := rest }
+
+/-- thread.rs:2989-2998 `reset_stack`: `stack.exit_scope()` failing ⇒ `Err("Attempted to exit scope above current")`. -/
+def resetLoopL (level : Nat) : Nat → LStack → LStack × Bool
+  | 0, s => (s, true)
+  | fuel + 1, s =>
+    if s.frames.length > level then
+      match exitScopeL s with
+      | none => (s, false)
+      | some s' => resetLoopL level fuel s'
+    else (s, true)
+
+/-- the error path of `call_thunk_top` / `execute_io_top` / `call_first`: `reset_stack(stack, level)?` — on `Err` the
+    function returns at once (the host receives THAT error) — then the left-over values are popped. -/
+def resetTopL (level vlen : Nat) (s : LStack) : LStack × Bool :=
+  match resetLoopL level s.frames.length s with
+  | (s', true) => ({ s' with values := s'.values - (s'.values - vlen) }, true)
+  | (s', false) => (s', false)
+
+/-- The thread when the future of an async primitive resolves: `d` closure frames of the running program, on top the
+    primitive's extern frame, locked by `into_lock` (function.rs:305) until `return_future`'s poll function completes;
+    `v` values pushed so far. -/
+def asyncPending (s : LStack) (d v : Nat) : LStack :=
+  ⟨⟨s.values + v, true⟩ :: (List.replicate d ⟨s.values + v, false⟩ ++ s.frames), s.values + v⟩
+
+def unlockTop (s : LStack) : LStack :=
+  match s.frames with
+  | [] => s
+  | f :: rest => { s with frames := { f with locked := false } :: rest }
+
+/-- thread.rs:1658-1676, the poll function installed by `Context::return_future`, when the future is ready:
+    `releaseFirst = true` is the code (`release_lock(lock)`, then `value.vm_push(context)`, its `Err` returned);
+    `false` is the other order (`vm_push(..)?` first, `release_lock` afterwards — the `?` skips the release).
+    `pushFails`: the future's output is an error (`IO::Exception`, `RuntimeResult::Panic`, `Err(e)`).
+    Result: the stack and whether the primitive completed. -/
+def completeAsync (releaseFirst pushFails : Bool) (s : LStack) : LStack × Bool :=
+  if releaseFirst then
+    let s1 := unlockTop s
+    if pushFails then (s1, false) else ({ s1 with values := s1.values + 1 }, true)
+  else
+    if pushFails then (s, false) else (unlockTop { s with values := s.values + 1 }, true)
+
+/-- A top-level run that fails inside an async primitive, then the error path. Returns the thread afterwards and
+    whether the host got the script's own error (`false`: it got `Attempted to exit scope above current`). -/
+def asyncFailStep (releaseFirst : Bool) (s : Stack) (d v : Nat) : Stack × Bool :=
+  let l := s.toL
+  let p := (completeAsync releaseFirst true (asyncPending l d v)).1
+  let r := resetTopL l.frames.length l.values p
+  (r.1.toStack, r.2)
+
+/-- async primitives for which the harness has a failing history step (checked against the generated table by the
+    driver's `coverage` request) -/
+def asyncStepped : List String :=
+  ["std.io.prim.catch", "std.io.prim.run_expr", "std.io.prim.load_script", "std.lazy.prim.force",
+   "std.thread.prim.resume", "std.thread.prim.yield", "std.thread.prim.join"]
 
 def runOps (depth vals : Nat) : List Op := .push vals :: List.replicate depth (.enter 0)
 
@@ -66,6 +149,8 @@ def stepWith (reset : Nat → Nat → Stack → Stack) (s : Stack) : Step → St
   | .ok _ _ => s
   | .fail d v => reset s.frames.length s.values (s.run (runOps d v))
   | .hostFail d v => reset s.frames.length s.values (s.run (runOps d v))
+  | .asyncFail d v => (asyncFailStep true s d v).1
+  | .okIO => { s with values := s.values + 1 }
 
 /-- Old rule (before dd1aca2): a failed host call of a Gluon function was not unwound at all. -/
 def stepWithOldHost (reset : Nat → Nat → Stack → Stack) (s : Stack) : Step → Stack
@@ -82,6 +167,14 @@ def failLeak : Step → Nat
   | .ok _ _ => 0
   | .fail _ v => v
   | .hostFail _ v => v
+  | .asyncFail _ _ => 0
+  | .okIO => 1
+
+/-- number of dummy slots left by successful IO actions -/
+def ioSlots : List Step → Nat
+  | [] => 0
+  | .okIO :: steps => 1 + ioSlots steps
+  | _ :: steps => ioSlots steps
 
 /-- top-level evaluations only (`run_expr`): no failing host call of a function -/
 def Step.topLevel : Step → Bool
